@@ -186,6 +186,8 @@ def family(run, prefixes, faults, crash, variants=None):
         frac_other, frac_rej = 0.5, 0.03
     for c in cases:
         f = frac_rej if is_rejected_delete(c) else frac_other
+        if quick and c["hist"][-1]["op"].get("fk") == "timeout":
+            f = min(f, 0.3)
         if f >= 1.0 or rnd.random() < f:
             keep.append(c)
     # replay variants: the same behaviour driven differently (see harness/storeh variant)
@@ -193,7 +195,7 @@ def family(run, prefixes, faults, crash, variants=None):
     for c in keep:
         ops = [h["op"] for h in c["hist"]]
         lastop = ops[-1]
-        if variants.get("nowait") and any(ops[i]["op"] == "append" and ops[i + 1]["op"] == "delete" for i in range(len(ops) - 1)):
+        if variants.get("nowait") and any(ops[i]["op"] == "append" and ops[i + 1]["op"] in ("delete", "stop") for i in range(len(ops) - 1)):
             if rnd.random() < variants["nowait"]:
                 extra.append(dict(c, variant="nowait"))
         if variants.get("parallel") and lastop["op"] == "delete" and lastop["kind"] in ("wipe", "tail", "head") \
@@ -250,5 +252,5 @@ def c14(run):
 
 @register("C06")
 def c06(run):
-    family(run, ["C06_", "C04_operation_failed", "C04_every_appended"], faults=False, crash=True,
-           variants={"wfail": 0.5 if run.tier == "quick" else 1.0})
+    family(run, ["C06_", "C04_operation_failed", "C04_every_appended", "C04_head_is_top"], faults=False, crash=True,
+           variants={"wfail": 0.5 if run.tier == "quick" else 1.0, "nowait": 0.5 if run.tier == "quick" else 1.0})
